@@ -35,6 +35,15 @@ def run(ctx, mod):
     reasons = []       # why the property is no longer shown to hold (broken tie / proof / correspondence)
     os.makedirs(C.RUN, exist_ok=True)
 
+    # ---- 0. source fingerprints: a changed anchored file is not a verdict, it only buys the larger exploration budget -------------
+    from . import anchors
+    changed_files, recorded = anchors.changed(prop, mod)
+    ctx.cov['source_fingerprint'] = dict(recorded=recorded, changed_files=changed_files, files=anchors.files_of(prop, mod))
+    if changed_files and ctx.tier == 'quick' and not os.environ.get('VERIF_NO_ESCALATE'):
+        ctx.escalate()
+        ctx.log('anchored source changed since the models were validated (%s): running correspondence/conclusion streams with the thorough budget'
+                % ', '.join(changed_files))
+
     # ---- 1. regenerate models from /repo and rebuild the theorems ------------------------------------
     with C.BuildLock():
         gen = C.regen()
@@ -61,7 +70,7 @@ def run(ctx, mod):
                 axioms, closed = C.parse_assumptions(pout)
             ctx.log('coqc props/P_%s.v: rc=%d in %.1fs; axioms=%s' % (prop, rc2, dt2, sorted(axioms)))
     coqchk = None
-    if ctx.tier == 'thorough' and build_ok and props_ok and not os.environ.get('VERIF_NO_COQCHK'):
+    if ctx.requested_tier == 'thorough' and build_ok and props_ok and not os.environ.get('VERIF_NO_COQCHK'):
         # independent re-check of the compiled closure of the property file (separate checker binary)
         import subprocess
         t1 = time.time()
@@ -128,6 +137,24 @@ def run(ctx, mod):
         mod.correspondence(ctx, model_ok)
     except C.CoqError as ex:
         reasons.append(dict(kind='correspondence', what='model evaluation failed: %s' % str(ex)[-1200:]))
+    except Exception as ex:
+        # An exception that escapes the harness while the implementation is on the stack means the implementation raised on an input
+        # the generators consider admissible (or returned something the comparison cannot digest).  On the unchanged tree this does not
+        # happen, so when the implementation is on the stack, or the anchored source differs from the validated fingerprint, the
+        # correspondence is reported as broken (the search below then looks for a concrete failing input).  Otherwise it is a harness
+        # defect and no verdict is given (CHECK-ERROR).
+        tb = traceback.extract_tb(ex.__traceback__)
+        in_repo = [fr for fr in tb if os.path.abspath(fr.filename).startswith(os.path.abspath(C.REPO) + os.sep)]
+        if not in_repo and not changed_files:
+            raise
+        where = ('%s:%d in %s' % (os.path.relpath(in_repo[-1].filename, C.REPO), in_repo[-1].lineno, in_repo[-1].name)) if in_repo else \
+                ('%s:%d in %s' % (os.path.basename(tb[-1].filename), tb[-1].lineno, tb[-1].name))
+        traceback.print_exc()
+        reasons.append(dict(kind='correspondence', what='the correspondence run could not be completed: %s: %s raised at %s (%s)'
+                            % (type(ex).__name__, str(ex)[:400], where,
+                               'implementation raised on a generated input' if in_repo else 'harness could not digest the behaviour of the changed source'),
+                            case=dict(exception=type(ex).__name__, message=str(ex)[:400], where=where,
+                                      traceback=[('%s:%d %s' % (fr.filename, fr.lineno, fr.name)) for fr in tb][-12:])))
     # failures that are exactly an open known finding are not violations
     open_f = [f for f in findings if f['status'] == 'open']
     fresh = []
@@ -153,7 +180,7 @@ def run(ctx, mod):
                 ctx.notes.append('search crashed: %r' % ex)
             if found is not None and any(mod.matches_finding(found, f) for f in open_f):
                 found = None
-        replay = dict(property=prop, seed=ctx.seed, tier=ctx.tier, reasons=reasons,
+        replay = dict(property=prop, seed=ctx.seed, tier=ctx.tier, requested_tier=ctx.requested_tier, reasons=reasons,
                       failing_input=(concrete[0].get('case') if concrete else (found or {}).get('case')),
                       failing_what=(concrete[0]['what'] if concrete else (found or {}).get('what')),
                       broken=[r['what'] for r in reasons if not r.get('concrete')])
@@ -179,7 +206,7 @@ def run(ctx, mod):
         known_findings=known_lines, notes=ctx.notes, coqchk=coqchk, exhaustive=bool(getattr(mod, 'EXHAUSTIVE', False)),
     )
     cov.update(ctx.cov)
-    ev = dict(property_id=prop, tier=ctx.tier, seed=ctx.seed, level='proof', coverage=cov,
+    ev = dict(property_id=prop, tier=ctx.requested_tier, seed=ctx.seed, level='proof', coverage=cov,
               assumptions=list(mod.ASSUMPTIONS), wall_s=round(time.time() - ctx.t0, 2), violations=1 if violation else 0)
     C.write_json(os.path.join(C.VERIF, 'evidence', '%s.json' % prop), ev)
     ctx.log('done: %s; obligations %d/%d; evaluations %d' % ('VIOLATION' if violation else 'ok', discharged, nqed, cov['evaluations']))
